@@ -5,6 +5,7 @@ import ast
 import re
 
 from vk import astx, facts, numkind, elect
+from vk.report import shape_rule
 from vk.algebra import Normalizer, bool_key, literals, spec_rat, NotClosedForm, atoms_of, simplify
 from vk.loader import AnalysisError
 from rules import c20, c04
@@ -53,20 +54,24 @@ def r4_totals(ctx):
     prog = ctx.prog
     f = prog.find_func("score_profile_from_ballot_scores")
     pm = astx.parents(f.node)
-    augs = [n for n in astx.walk_own(f.node) if isinstance(n, ast.AugAssign) and isinstance(n.target, ast.Subscript)]
+    from vk import accum
+    accs = accum.accumulations(f.node)
+    augs = [a.node for a in accs]
     good = False
     d = ""
-    if len(augs) == 1 and isinstance(augs[0].op, ast.Add):
-        loops = [l for l in astx.enclosing_loops(augs[0], pm, f.node) if isinstance(l, ast.For)]
+    if len(accs) == 1 and not accs[0].conditional:
+        a = accs[0]
+        loops = [l for l in astx.enclosing_loops(a.node, pm, f.node) if isinstance(l, ast.For)]
         if len(loops) == 2:
             inner, outer = loops
             b = astx.u(outer.target)
             if isinstance(inner.target, ast.Tuple) and astx.u(inner.iter) == f"{b}.scores.items()" and astx.u(outer.iter).endswith(".ballots"):
                 c, sc = [astx.u(x) for x in inner.target.elts]
-                N = Normalizer(f.node, rename=lambda e: {f"{b}.weight": "W", sc: "S"}.get(astx.u(e)))
+                # single-assignment temporaries (w = ballot.weight) are read through
+                N = Normalizer(f.node, inline=True, no_inline=[b, c, sc], rename=lambda e: {f"{b}.weight": "W", sc: "S"}.get(astx.u(e)))
                 try:
-                    got = N.rat(augs[0].value)
-                    good = got.equals(spec_rat("S * W")) and astx.u(augs[0].target.slice) == c
+                    got = N.rat(a.inc)
+                    good = got.equals(spec_rat("S * W")) and astx.u(a.key) == c
                     d = got.key()
                 except NotClosedForm as e:
                     d = str(e)
